@@ -112,7 +112,7 @@ def mc_programs(alphabet: str, mode: str, maxnodes: int, workers: int = 4, timeo
     progs, exp = [], {}
     for i, row in enumerate(tlc.read_ndjson(out)):
         pid = i + 1
-        progs.append({"id": pid, "mode": row["mode"], "devs": [], "dyn": False, "ctx": libd["ctx"], "comps": libd["comps"],
+        progs.append({"id": pid, "mode": row["mode"], "devs": [], "dyn": False, "pyctx": False, "ctx": libd["ctx"], "comps": libd["comps"],
                       "page": row["page"]})
         exp[pid] = {"id": pid, "out": row["out"], "err": row["err"], "zone": row["zone"], "insts": row["insts"]}
     return progs, exp, r
